@@ -167,7 +167,7 @@ func init() {
 
 // ruleStickyState: R-S.  pkgs: packages in scope for the calling property.
 func ruleStickyState(p *Prog, r *Report, prop string, pkgs map[string]bool, floor int) {
-	r.rule("R-S", "No unaudited state crosses loop iterations in the parsers and planners of this property's packages: a variable that lives across iterations of a loop (phi at the loop header), is on some path replaced by a value not derived from its previous value, and is read inside the loop body, must be an audited row of tables/sticky_audit.tsv (function, type, replacing values; compared as a multiset per function). Accumulators, consumers (x = x[1:]), counters and pure outputs of a loop (found flags) are not concerned. A per-item flag that loses its reset (declaration hoisted out of the loop) shows up as a new sticky variable.")
+	r.rule("R-S", "No unaudited state crosses loop iterations in the parsers and planners of this property's packages: a variable that lives across iterations of a loop (phi at the loop header), is on some path replaced by a value not derived from its previous value, and is read inside the loop body, must be an audited row of tables/sticky_audit.tsv (function, type, replacing values; compared as a multiset per function). Accumulators, consumers (x = x[1:]), counters and pure outputs of a loop (found flags) are not concerned. A per-item flag that loses its reset (declaration hoisted out of the loop) shows up as a new sticky variable; an audited variable that stops living across iterations (a sticky 'all lines so far' flag recomputed per line) is reported as lost.")
 	want := map[string][]string{}
 	why := map[string]string{}
 	for _, row := range readTable("sticky_audit.tsv", 4) {
@@ -191,7 +191,6 @@ func ruleStickyState(p *Prog, r *Report, prop string, pkgs map[string]bool, floo
 			pos[name+"|"+s.sig()] = p.pos(s.Phi.Pos())
 		}
 	}
-	// audited functions of these packages that lost their sticky variables are fine (less state)
 	sort.Strings(fns)
 	for _, name := range fns {
 		w := append([]string{}, want[name]...)
@@ -210,6 +209,49 @@ func ruleStickyState(p *Prog, r *Report, prop string, pkgs map[string]bool, floo
 				r.fail("R-S", "sticky|"+name+"|"+sig, pos[name+"|"+sig], "variable of type "+sig+" keeps its value from one loop iteration to the next and is read in the loop body",
 					"unaudited state crosses iterations: a per-item flag without reset makes the treatment of an item depend on earlier items (not in tables/sticky_audit.tsv)")
 			}
+		}
+	}
+	// two-sided: audited cross-iteration state must still be there.  Each row is state the
+	// algorithm needs (previous command, current table, "all lines so far have this action", ...):
+	// making such a variable per-iteration silently changes the decisions that depend on it.
+	byName := fnDisplayIndex(p)
+	var wnames []string
+	for name := range want {
+		wnames = append(wnames, name)
+	}
+	sort.Strings(wnames)
+	for _, name := range wnames {
+		fn := byName[name]
+		if fn == nil {
+			// function of another property's packages or renamed: only complain when the package is in scope
+			pk := name
+			if i := strings.LastIndex(pk, "."); i >= 0 {
+				pk = pk[:i]
+			}
+			pk = strings.Trim(pk, "(*)")
+			if pkgs[pk] {
+				r.fail("R-S", "sticky-kept|"+name, "", "audited function "+name+" not found", "re-audit: the function that holds audited loop state is gone or renamed")
+			}
+			continue
+		}
+		if !pkgs[pkgOfFunc(fn)] {
+			continue
+		}
+		w := append([]string{}, want[name]...)
+		g := append([]string{}, got[name]...)
+		for _, sig := range w {
+			idx := -1
+			for i, x := range g {
+				if x == sig {
+					idx = i
+				}
+			}
+			if idx >= 0 {
+				g = append(g[:idx], g[idx+1:]...)
+				continue
+			}
+			r.fail("R-S", "sticky-kept|"+name+"|"+sig, p.pos(fn.Pos()), "the audited loop state ("+why[name+"|"+sig]+") no longer lives across iterations",
+				"a variable that has to remember earlier iterations was made per-iteration (or its update changed): decisions that depend on what came before are taken as if each item stood alone")
 		}
 	}
 	r.floor("R-S", "sticky variables in scope of "+prop, n, floor)
